@@ -211,7 +211,9 @@ pub fn run(ctx: &Ctx) -> PropReport {
     );
     rep.push(grid(ctx, ctx.tier.pick(60, 400)));
     rep.push(run_sharded(ctx, "random", ctx.tier.pick(400_000, 3_000_000), random_strategy, |(t, o, s): &(String, String, StateSpec)| judge(t, o, s), |(t, o, s)| case_json(t, o, s)));
-    rep.push(crate::props::incontext::run(ctx, ctx.tier.pick(40_000, 600_000)));
+    for r in crate::props::incontext::run_all(ctx, ctx.tier.pick(40_000, 600_000)) {
+        rep.push(r);
+    }
     rep
 }
 
